@@ -33,6 +33,30 @@ theorem markDate_ge (e : Env) (wf : WF e) (B : Int) (hB : e.start ≤ B) (cur : 
     unfold Env.time Env.idx at *
     omega
 
+/-- in a later slot (offset cleared) the date written is the slot start, which is after the bound -/
+theorem markDate_ge_later (e : Env) (wf : WF e) (B : Int) (hB : e.start ≤ B) (cur : Int) (hc : (cursorOf e B).1 < cur) :
+    B ≤ markDate e cur 0 := by
+  have hfl := (Board.mk e.start e.stop e.G).rawIdx_floor wf.G_pos (t := B) hB
+  simp only [Board.time, Board.rawIdx] at hfl
+  have hm := time_mono e wf ((cursorOf e B).1 + 1) cur (by omega)
+  unfold markDate
+  have : ¬ ((0 : Rat) > 0) := by grind
+  simp only [this, if_false]
+  unfold cursorOf at hm
+  simp only [] at hm
+  unfold Env.time Env.idx at *
+  have h2 : (Int.tdiv (B - e.start) e.G + 1) * e.G = Int.tdiv (B - e.start) e.G * e.G + e.G := by
+    rw [Int.add_mul]; omega
+  omega
+
+theorem startInv_date_ge (e : Env) (wf : WF e) (B : Int) (hB : e.start ≤ B) (w : Walk)
+    (hcur : (cursorOf e B).1 ≤ w.cur)
+    (hoff : (w.offset = (cursorOf e B).2 ∧ w.cur = (cursorOf e B).1) ∨ (w.offset = 0 ∧ (cursorOf e B).1 < w.cur)) :
+    B ≤ markDate e w.cur w.offset := by
+  rcases hoff with ⟨h1, _⟩ | ⟨h1, h2⟩
+  · rw [h1]; exact markDate_ge e wf B hB w.cur hcur
+  · rw [h1]; exact markDate_ge_later e wf B hB w.cur h2
+
 end SP
 
 namespace SP
@@ -91,7 +115,7 @@ structure StartInv (e : Env) (σ : St) (t0 : Nat) (B : Int) (w : Walk) : Prop wh
   inb : t0 < σ.ts.size
   fwd : (σ.tst t0).forward = true
   cur : (cursorOf e B).1 ≤ w.cur
-  off : w.offset = (cursorOf e B).2
+  off : (w.offset = (cursorOf e B).2 ∧ w.cur = (cursorOf e B).1) ∨ (w.offset = 0 ∧ (cursorOf e B).1 < w.cur)
   started : w.done ≠ 0 → ∃ v, (σ.tst t0).start = some v ∧ B ≤ v
 
 theorem bookResources_startInv (e : Env) (wf : WF e) (σ : St) (t0 : Nat) (B : Int) (w : Walk) (hB : e.start ≤ B)
@@ -104,7 +128,7 @@ theorem bookResources_startInv (e : Env) (wf : WF e) (σ : St) (t0 : Nat) (B : I
   · rcases h2 hz with ⟨hd, _⟩ | hs
     · exact absurd hd hne
     · refine ⟨_, hs, ?_⟩
-      rw [h.off]; exact markDate_ge e wf B hB w.cur h.cur
+      exact startInv_date_ge e wf B hB w h.cur h.off
   · rw [h1 hz]; exact h.started hz
 
 theorem scheduleSlot_startInv (e : Env) (wf : WF e) (σ : St) (t0 : Nat) (B : Int) (w : Walk) (hB : e.start ≤ B)
@@ -137,8 +161,9 @@ theorem scheduleSlot_startInv (e : Env) (wf : WF e) (σ : St) (t0 : Nat) (B : In
     · rw [hfr.2.2.2.2]; exact h.inb
     · rw [hfr.2.2.2.1]; exact h.fwd
     · rw [advance_cur, hwk.1]; have := h.cur; simp only [if_true]; omega
-    · show (bookResources e σ t0 w).2.offset = _
-      rw [hwk.2]; exact h.off
+    · right
+      refine ⟨rfl, ?_⟩
+      rw [advance_cur, hwk.1]; have := h.cur; simp only [if_true]; omega
     · exact hst
 
 end SP
@@ -216,7 +241,7 @@ theorem scheduleTask_start_ge (e : Env) (wf : WF e) (σ : St) (t0 : Nat)
     have hs0 : StartInv e (σ.setT t0 (σ.tst t0)) t0 (boundOf e σ t0) { cur := (initCursor e σ t0).1, offset := (initCursor e σ t0).2 } := by
       refine ⟨by rw [size_setT]; exact hb, by rw [tst_setT_same _ _ _ hb]; exact hf, ?_, ?_, fun h => absurd rfl h⟩
       · rw [hic]; exact Int.le_refl _
-      · rw [hic]
+      · left; rw [hic]; exact ⟨rfl, rfl⟩
     by_cases hfin : (walkLoop e t0 true (e.size.toNat + 3) (σ.setT t0 (σ.tst t0))
         { cur := (initCursor e σ t0).1, offset := (initCursor e σ t0).2 }).2.2 = true
     · simp only [hfin, Bool.not_true, Bool.false_eq_true, if_false] at hok ⊢
